@@ -25,6 +25,14 @@ TRUSTED = [
 ASSUMPTIONS = ["sinks terminate and do not call the logger (re-entrancy is C04)", "non-free-threaded CPython"]
 
 MODULES = ["m", "m.a", "m.ab", "n"]
+ANON = None          # the module "name" of code whose globals have no __name__ (exec'd code): enable(None)/disable(None)
+
+
+def names(rule_name, mod):
+    """does a rule for `rule_name` apply to module `mod`?  None names only the anonymous module."""
+    if rule_name is None or mod is None:
+        return rule_name is None and mod is None
+    return rule_name == "" or mod == rule_name or mod.startswith(rule_name + ".")
 
 
 # ----------------------------------------------------------------------------- programs
@@ -43,7 +51,7 @@ def gen_program(rng, nthreads=None, maxops=None, kinds=None):
                 lv = rng.choice(["INFO", "INFO", "DEBUG", "ERROR"])
                 if custom and rng.chance(50):
                     lv = rng.choice(custom)
-                ops.append(["log", rng.choice(MODULES), lv])
+                ops.append(["log", rng.choice(MODULES + [ANON]) if rng.chance(15) else rng.choice(MODULES), lv])
             elif k == "add":
                 ops.append(["add", rng.choice(["DEBUG", "INFO"]) + rng.choice(["", "", ":c"])])
             elif k == "newlevel":
@@ -57,7 +65,7 @@ def gen_program(rng, nthreads=None, maxops=None, kinds=None):
             elif k == "level":
                 ops.append(["level", "INFO", rng.choice(["<red>", "<blue>"])])
             else:
-                ops.append([k, rng.choice(["m", "m.a", "", "n"])])
+                ops.append([k, rng.choice(["m", "m.a", "", "n", "m", None])])
         threads.append(ops)
     # a level created by one thread is also logged at by the others (possibly before it exists)
     for ops in threads:
@@ -94,7 +102,7 @@ LEVELNO = {"TRACE": 5, "DEBUG": 10, "INFO": 20, "SUCCESS": 25, "WARNING": 30, "E
 
 
 def _mk_log_fn(logger, module):
-    ns = {"__name__": module, "logger": logger}
+    ns = {"__name__": module, "logger": logger} if module is not None else {"logger": logger}
     exec("def f(level, msg):\n    logger.log(level, msg)\n", ns)
     return ns["f"]
 
@@ -145,7 +153,7 @@ class Run:
             self.initial_ids = list(ids)
             s = sched.Sched(self.chooser, max_events=self.max_events)
             ops_log = []   # (thread, opindex, op, invoke_pos, return_pos, result)
-            logfns = {m: _mk_log_fn(logger, m) for m in MODULES}
+            logfns = {m: _mk_log_fn(logger, m) for m in MODULES + [ANON]}
             added = []
 
             def thread_body(tn, ops):
@@ -284,7 +292,7 @@ def monitors(run):
     def determined_status(mod, inv, ret):
         """True/False when the enable/disable calls naming mod or a parent all returned, one after the other,
         before the log call began (the status the call must observe); None when some change overlaps it"""
-        rel = [(r, i, o) for (r, i, o) in acts if o[1] == "" or mod == o[1] or mod.startswith(o[1] + ".")]
+        rel = [(r, i, o) for (r, i, o) in acts if names(o[1], mod)]
         if not rel:
             return True
         if any(not (r < inv) for (r, i, o) in rel):
@@ -338,7 +346,7 @@ def _spec_enabled(rules, mod):
     """status of the most recent enable/disable naming mod or one of its parents (default enabled)"""
     status = True
     for name, st in rules:
-        if name == "" or mod == name or mod.startswith(name + "."):
+        if names(name, mod):
             status = st
     return status
 
@@ -407,7 +415,7 @@ def run(ctx):
         if not bad and len(act_lines) < ctx.n(40000, 400000) and any(
                 op[0] in ("enable", "disable") for ops in program["threads"] for op in ops):
             from harness import c02_trace
-            for mod in sorted({op[1] for ops in program["threads"] for op in ops if op[0] == "log"}):
+            for mod in sorted({op[1] for ops in program["threads"] for op in ops if op[0] == "log"}, key=str):
                 got = c02_trace.act_lines(r, mod)
                 if got is not None:
                     act_lines.extend(got[0])
@@ -434,8 +442,8 @@ def run(ctx):
         if boost > 1 and nviol[0]:
             break          # enlarged search after a broken obligation: a failing input has been found
         r0 = rng.fork("act%d" % ai)
-        name = r0.choice(["m", "m.a", "", "n"])
-        mod = r0.choice([m for m in MODULES if name == "" or m == name or m.startswith(name + ".")] or ["n"])
+        name = r0.choice(["m", "m.a", "", "n", None])
+        mod = r0.choice([m for m in MODULES + [ANON] if names(name, m)] or ["n"])
         kind = r0.choice(["disable", "disable", "enable"])
         pre = [["disable", name]] if kind == "enable" else []
         prog = {"handlers": ["DEBUG"], "threads": [pre + [[kind, name]], [["log", mod, "INFO"], ["log", mod, "INFO"]]]}
